@@ -338,10 +338,13 @@ do_submit(uid_t u, const char *ics, size_t len, size_t chunk)
 	memset(&prm, 0, sizeof(prm));
 	if (socketpair(AF_UNIX, SOCK_STREAM, 0, sv) < 0) { tprintf("REPLY error socketpair\n"); return; }
 	if (!chunk) chunk = len;
+	/* one recv() delivers at most a buffer full */
+	if (chunk > sizeof(bufs[0])) chunk = sizeof(bufs[0]);
 	for (size_t off = 0; off < len; off += chunk) {
 		size_t z = len - off < chunk ? len - off : chunk;
-		/* like sock_data_cb: feed the chunk, run the command */
-		char *blk = malloc(z);
+		/* like sock_data_cb: recv() into the connection's buffer, feed the chunk, run the command */
+		char *blk = bufs[0];
+		if (z > sizeof(bufs[0])) z = sizeof(bufs[0]);
 		memcpy(blk, ics + off, z);
 		switch (feed_cmd(&prm, blk, z)) {
 		case ECHS_CMD_HTTP:
@@ -356,7 +359,11 @@ do_submit(uid_t u, const char *ics, size_t len, size_t chunk)
 			off = len;
 			break;
 		}
-		free(blk);
+		flush_spawn();
+	}
+	if (prm.cmd == ECHS_CMD_ICAL) {
+		/* end of file on the socket: a last, empty read */
+		if (feed_cmd(&prm, bufs[0], 0U) == ECHS_CMD_ICAL) (void)cmd_ical(&theloop, sv[0], &prm.ical, cr);
 		flush_spawn();
 	}
 	shut_cmd(&prm);
@@ -382,6 +389,7 @@ do_submit(uid_t u, const char *ics, size_t len, size_t chunk)
 static void
 do_dump(void)
 {
+	tprintf("TABSIZE %zu\n", ztask_ht);
 	for (size_t i = 0U; i < ztask_ht; i++) {
 		_task_t t;
 		if (!task_ht[i].oid) continue;
@@ -390,6 +398,12 @@ do_dump(void)
 			(unsigned)t->cur.y, (unsigned)t->cur.m, (unsigned)t->cur.d, (unsigned)t->cur.H, (unsigned)t->cur.M, (unsigned)t->cur.S, t->nsim, t->w.active, t->w.active ? t->w.at : -1., t->dflt_cred.u, t->dflt_cred.wd ? t->dflt_cred.wd : "");
 	}
 	tprintf("ENDDUMP ntasks running=%zu\n", nchs);
+}
+
+unsigned
+sut_uid_key(const char *uid, size_t len)
+{
+	return (unsigned)obint(uid, len);
 }
 
 double
